@@ -147,9 +147,9 @@ theorem c19_refill_sum_overflow_witness :
     ¬ fits (avail + Gen.Valve.tbRefillAdd (Gen.Valve.tbCurrentTick 2000000 fi) (Gen.Valve.tbCurrentTick 1000000 fi) q) := by
   decide
 
-/-- non-vacuity: the bucket the repaired `MakeValve` builds for any rate ≥ 2³⁴ (quantum 17, fillInterval 1 ns:
-17·10⁹ B/s is within 1 % of 2³⁴), one year after it was made, meets the hypotheses of `c19_refill_fits` -/
-example : let cap : Int := 2^34; let q : Int := 17; let fi : Int := 1; let now : Int := 365 * 86400 * 1000000000
+/-- non-vacuity: the bucket the repaired `MakeValve` builds for any rate ≥ 2³⁴ (quantum 86, fillInterval 5 ns:
+17.2·10⁹ B/s, within 1 % of 2³⁴; `C19.search`), one year after it was made, meets the hypotheses of `c19_refill_fits` -/
+example : let cap : Int := 2^34; let q : Int := 86; let fi : Int := 5; let now : Int := 365 * 86400 * 1000000000
     0 < q ∧ 0 < fi ∧ 0 < cap ∧ cap ≤ Gen.Valve.valveRateCap ∧ q * 100000000000 ≤ 101 * cap * fi ∧ 0 ≤ now ∧ now ≤ 2^57 := by
   decide
 
